@@ -245,7 +245,7 @@ def r6(ctx):
     ctx.rule(R, "accept registers SocketPair::new(my_addr, origin) - local first, connector second - mirroring the connector's "
                 "SocketPair::new(local_addr, dst); Tcp::receive_from_network looks streams up by SocketPair::new(dst, src)")
     for cid, want in (("turmoil::net::tcp::listener::TcpListener::accept::{closure#0}::{closure#1}", ("my_addr", "origin")),):
-        cb = ctx.w.bodies.get(cid)
+        cb = None
         if cb is None:
             # locate by content
             cands = [b for b in ctx.w.find(r"TcpListener::accept::\{closure#0\}::") if any(True for _ in b.calls("turmoil::host::Tcp::new_stream"))]
